@@ -26,6 +26,7 @@ DOC = {
         "the equal-area penalty term against its documented formula."
     ),
     "rules": {
+        "C02-R8": "linked groups: the aligned axis is built from the aligned points of every dataset (refusal before merge, merge of the aligned - not the original - points) and data, indices, groups, weights, matrices and scales are stacked in one order (shared with C09-R3 and C09-R4)",
         "C02-R7": "constructors of the data/matrix/estimation providers read no parameter-valued attribute (dataset scale, megacomplex parameters, group parameters): such values change on every evaluation and are read where they are used",
         "C02-R6": "the data provider works on its own copy of the data and weights: in-place weighting never reaches the caller's arrays, so a dataset used twice is weighted once each time (shared with C10-R3)",
         "C02-R1": "calculate_penalty evaluates and concatenates every optimisation group once; get_full_penalty ranges over all dataset models / all aligned indices (no slice, no filter besides the global-model dispatch) and appends the clp penalties once, after the residuals; estimate() visits every dataset / index",
@@ -468,9 +469,17 @@ def r7(ctx) -> None:
     lib.check_no_parameter_state_in_constructors(ctx, "C02-R7")
 
 
+def r8(ctx) -> None:
+    """Linked groups: which points share a linear sub-problem (shared with C09-R3 and C09-R4)."""
+    from glint.rules import c09
+
+    c09.r3(ctx, rule="C02-R8")
+    c09.r4(ctx, rule="C02-R8")
+
+
 def check(ctx) -> None:
     for g in check.groups:
         g(ctx)
 
 
-check.groups = [r1, r2, r3, r4, r5, r6, r7]
+check.groups = [r1, r2, r3, r4, r5, r6, r7, r8]
